@@ -63,9 +63,36 @@ def real_field(cfg, key):
     return cfg._schema._fields.get(key)
 
 
+def check_shapes(res, case, sk, cfg, where, prefix=""):
+    """C01, the type constraint of nested positions: a section holds a configuration (of its schema), a list of configurations holds
+    configurations — never the maps / scalars they were built from"""
+    from cincoconfig.core import Config
+    for k, sf in sk["fields"]:
+        v = cfg._data.get(k)
+        if v is None:
+            continue
+        p = prefix + k
+        if sf["s"] in ("sub", "ctype"):
+            if not isinstance(v, Config):
+                res.violate("C01:section-holds-non-configuration", "a nested section holds something that is not a configuration", dict(case, at=where, path=p, held=type(v).__name__))
+            else:
+                check_shapes(res, case, sf["schema"], v, where, p + ".")
+        elif sf["s"] == "cfglist":
+            if not isinstance(v, (list, tuple)):
+                res.violate("C01:list-holds-non-configuration", "a list of configurations holds something that is not a list", dict(case, at=where, path=p, held=type(v).__name__))
+                continue
+            for i, it in enumerate(v):
+                if not isinstance(it, Config):
+                    res.violate("C01:list-holds-non-configuration", "a list of configurations holds an item that is not a configuration (its values were never validated)",
+                                dict(case, at=where, path="%s[%d]" % (p, i), held=type(it).__name__))
+                    break
+                check_shapes(res, case, sf["schema"], it, where, "%s[%d]." % (p, i))
+
+
 def check_invariant(res, case, sk, cfg, where):
     """C01: every readable value is unset or accepted unchanged by its own field"""
     import props.c05 as c05
+    check_shapes(res, case, sk, cfg, where)
     for p, sf, owner, k in walk_leaves(sk, cfg):
         f = sf["field"]
         if k not in owner._data:
